@@ -239,6 +239,9 @@ func (p *sparser) quant() *SX {
 			panic("missing binder type")
 		}
 		typ := strings.Join(ts, "")
+		if ts[0] == "chan" {
+			typ = "chan " + strings.Join(ts[1:], "")
+		}
 		for _, n := range names {
 			bs = append(bs, SBinder{n, typ})
 		}
